@@ -292,6 +292,27 @@ def gibbs_reconditioning(c, reps=1000):
     c.eq('joint_value_after_sampler_run_on_copy', J.logd(d=dv, s=sv, x=xp), ref)
 
 
+def sampling_leaves_matrix_parameters_intact(c, layout):
+    """a Gaussian whose square-root precision / covariance is a full dense matrix in C or Fortran memory order (a transposed view, an eigen-factor): drawing
+    samples from it, from a conditioned copy or through the joint leaves the stored matrix, the user's array and every later evaluation unchanged
+    (bounded stand-in: native - library routines that may overwrite their operands only do so for particular memory layouts)"""
+    n = 3
+    G = np.array([[c.real(f'g{i}{j}') for j in range(n)] for i in range(n)]) + 2 * np.eye(n)          # full, neither triangular nor symmetric
+    R = {'C': np.ascontiguousarray(G), 'F': np.asfortranarray(G), 'transposed_view': np.ascontiguousarray(G.T).T}[layout]
+    R0 = R.copy()
+    m = np.array([c.real(f'm{i}') for i in range(n)]); xv = np.array([c.real(f'x{i}') for i in range(n)])
+    for param in ('sqrtprec', 'sqrtcov'):
+        d = Gaussian(m, **{param: R}, name='x')
+        y = Gaussian(lambda x: x, 0.5, geometry=n, name='y'); J = JointDistribution(d, y)
+        S0 = frame.snapshot(d, EXC); l0 = d.logd(xv); j0 = J.logd(x=xv, y=xv + 1)
+        np.random.seed(1)
+        d.sample(); d.sample(4); J(y=xv + 1).prior.sample(2) if hasattr(J(y=xv + 1), 'prior') else None
+        c.holds(f'{param}:stored_parameters_unchanged_by_sampling', frame.same(S0, frame.snapshot(d, EXC)), note='; '.join(frame.diff(S0, frame.snapshot(d, EXC))))
+        c.eq(f'{param}:users_array_unchanged', R, R0, tol=0)
+        c.eq(f'{param}:log_density_unchanged', d.logd(xv), l0, tol=1e-12)
+        c.eq(f'{param}:joint_log_density_unchanged', J.logd(x=xv, y=xv + 1), j0, tol=1e-12)
+
+
 def gibbs_samplers_frame(c, iface):
     """running a Gibbs sampler (which conditions the joint over and over and hands values between blocks) on a hierarchical model: the distributions the
     model was built from - including the start points attached to the priors - evaluate as before, and chains already returned are not rewritten when the
@@ -342,6 +363,8 @@ def jobs(tier):
     J.append(Job('frame:BayesianProblem.sample_prior_leaves_the_problem_unchanged', problem_sample_prior, 'B', ['cuqi.problem._problem:BayesianProblem.sample_prior'], nnum=1))
     J.append(Job('frame:model_application_and_reconditioning', model_application, 'Pbox', FL))
     J.append(Job('frame:shared_geometry_object', shared_geometry, 'Pbox', ['cuqi.distribution._distribution:Distribution.geometry']))
+    for layout in ('C', 'F', 'transposed_view'):
+        J.append(Job(f'frame:Gaussian.sample:full_dense_matrix_parameter:memory_layout={layout}', lambda c, l=layout: sampling_leaves_matrix_parameters_intact(c, l), 'B', ['cuqi.distribution._gaussian:Gaussian._sample'], nnum=2))
     for iface in ('legacy', 'experimental'):
         J.append(Job(f'frame:{iface}_Gibbs_run_leaves_the_model_and_returned_chains_unchanged', lambda c, i=iface: gibbs_samplers_frame(c, i), 'B',
                      ['cuqi.sampler._gibbs:Gibbs.step', 'cuqi.sampler._gibbs:Gibbs._get_initial_points'] if iface == 'legacy' else ['cuqi.experimental.mcmc._gibbs:HybridGibbs.step'], nnum=2))
